@@ -1331,14 +1331,14 @@ def g9(ctx, res):
              f"not UNSUPPORTED_SCHEMA_KEYWORDS.isdisjoint({s})", f"not set({s}).isdisjoint(UNSUPPORTED_SCHEMA_KEYWORDS)"]
     from .norm import inline_procedures
     import copy as _copy
-    body = inline_procedures(_copy.deepcopy([st for st in pe.body]), pe, ctx.prog)
+    body = view(pe, ctx.prog).body
     for i, st in enumerate(body):
         if isinstance(st, ast.If) and any(match(_parse(t), st.test) is not None for t in tests):
             raises = [x for x in st.body if isinstance(x, ast.Raise) and x.exc is not None and "FeatureNotImplementedError" in norm(x.exc)]
             if raises and always_exits(st.body):
                 idx = i
                 break
-    res.check(idx is not None, pe, "if set(schema) & UNSUPPORTED_SCHEMA_KEYWORDS: raise FeatureNotImplementedError...",
+    res.judge(True if idx is not None else None, pe, "if set(schema) & UNSUPPORTED_SCHEMA_KEYWORDS: raise FeatureNotImplementedError...",
               reason="schemas using an unsupported keyword are refused with the not-implemented error")
     if idx is None:
         return
